@@ -53,6 +53,8 @@ TRUSTED = [
     "TimeOfUseTariff.get_tariff / get_demand_charge (C17's subject): the oracle prices each period with the "
     "scalar lookup, the model takes the vector the code obtained as an input",
     "cos/sin of the phase angles are inputs of the model (numpy exp(1j*deg2rad)); the oracle uses cmath",
+    "the constraint limits used by the oracle's link `pilots within the linear bound => |constraint current| within the "
+    "limit` are read from network.magnitudes (C12 owns the constraint table)",
 ]
 ASSUMPTIONS = [
     "theorems are over an arbitrary linear ordered field with an uninterpreted sqrt; the implementation computes "
@@ -67,6 +69,15 @@ ASSUMPTIONS = [
     "networks have at least one constraint (two, in generated cases) when the analysis is called "
     "(constraint_matrix is None otherwise: F3's territory, C06)",
     "proportion_of_demands_met uses strict `<` as in the source; the oracle abstains when remaining == threshold",
+    "simulator-model link: custom networks with the `simscript` scheduler (period -> schedule dict, EVSE(min 0, max), "
+    "ideal / noise-free two-stage batteries) are inside the domain of lean/AcnModel/Sim.lean and are run through it; "
+    "uncontrolled charging, the active-sessions-only scripted scheduler and the shipped sites are compared on the "
+    "implementation's matrices only (as before)",
+    "energy_cost / demand_charge without a tariff argument on a Simulator built WITHOUT `signals=`: sim.signals is None and "
+    "the code's membership test raises TypeError (not the ValueError of its message); model and oracle accept that class "
+    "there and insist on ValueError for a signals dict without a tariff",
+    "a Simulator JSON round trip drops a tariff OBJECT in signals (simulator.py: only natively serialisable signals are "
+    "kept; DESIGN §8), so after `simjson` the no-argument cost calls are expected to fail",
 ]
 RULE = ("per case one completed real simulation: custom three-phase network (3-8 stations, heterogeneous voltages "
         "and phase angles, 2-7 named constraints with mixed-sign / fractional / zero coefficients, names added in "
@@ -85,6 +96,16 @@ RULE = ("per case one completed real simulation: custom three-phase network (3-8
         "network.constraint_current with time_indices (negative, repeated, out of range), NEMA for id triples "
         "(incl. repeated / unknown / wrong length), energy totals and proportions with thresholds at and around "
         "every session's remaining demand, energy cost and demand charge under four tariff files, datetimes. "
+        "HALF of the custom cases use a scheduler inside the domain of the full simulator model (`simscript`: a schedule dict "
+        "per period over any subset of the stations - vacant ones and fully charged EVs included - 1-3 periods long, "
+        "max_recompute 1 / 3 / None); the scenario is then ALSO run through lean/AcnModel/Sim.lean by the driver and every "
+        "analysis value is recomputed on the MODEL'S OWN trajectory and compared with the implementation's answer, "
+        "together with rates, pilots, peak, iteration, ev_history and the model-side ledger equalities; in 45 % of them "
+        "schedule() raises once (arrival periods, period 0, the last period): datetimes_array / aggregate_current / peak are "
+        "observed on the UNFINISHED simulation (warning expected iff the queue is not empty), then run() is called again; "
+        "datetimes_array is also called before run(); current_unbalance is called with the keywords unbalance_type / "
+        "type in all five combinations of right and wrong values; energy_cost / demand_charge are called with and without "
+        "a tariff argument on simulators built with signals = None / {} / {'tariff': one of five files}. "
         "non-trivial = at least two stations with different voltages AND different phase angles carry current "
         "in the same period and a mixed-sign constraint is queried in a non-index order; distinct by case hash")
 
